@@ -540,6 +540,7 @@ def to_fpm_and_back_backprop(wavefunction, dx, wavelength, efl, fpm, fpm_dx=None
     if isinstance(fpm, Wavefront):
         fpm_samples = fpm.data.shape
         fpm_dx = fpm.dx
+        fpm = fpm.data
     else:
         if fpm_dx is None:
             raise ValueError('fpm was not a Wavefront and fpm_dx was None')
@@ -1257,6 +1258,10 @@ class Wavefront:
         # c = iDFT(C)      | Cbar to Abar absorbed in to_fpm_and_back_backprop
         # d = c*L          | cbar = dbar * conj(L)
         # f = d - flip(a)  | dbar = d
+
+        if isinstance(fpm, Wavefront):
+            fpm_dx = fpm.dx
+            fpm = fpm.data
 
         fpm = 1 - fpm
 
